@@ -415,3 +415,46 @@ def find_closure(src, lo, hi, name):
                     return (i, params, b, e - 1, e)
         i += 1
     return None
+
+
+def find_inline_closures(src, lo, hi):
+    """All closure expressions `[move] |params| body` between lo and hi in source order.
+    -> list of (first_tok, params_text, body_lo, body_hi).  A `|` starts a closure when the previous
+    significant token cannot end an operand."""
+    out = []
+    i = lo
+    while i < hi:
+        if src.is_p(i, '|'):
+            p = src.toks[i - 1]
+            starts = (p.kind == 'punct' and p.text in '(,={;[>&') or (p.kind == 'ident' and p.text in ('move', 'return', 'else'))
+            if starts:
+                first = i - 1 if (p.kind == 'ident' and p.text == 'move') else i
+                if src.is_p(i + 1, '|') and src.toks[i + 1].start == src.toks[i].end:
+                    params, q = '', i + 1
+                else:
+                    q = i + 1
+                    while not src.is_p(q, '|'):
+                        if src.toks[q].kind == 'punct' and src.toks[q].text in OPEN:
+                            q = src.match[q]
+                        q += 1
+                    params = src.span_text(i + 1, q - 1)
+                b = q + 1
+                # optional `-> T` before a braced body
+                if src.is_p(b, '{'):
+                    e = src.match[b]
+                else:
+                    e = b
+                    while e < hi:
+                        t = src.toks[e]
+                        if t.kind == 'punct' and t.text in OPEN:
+                            e = src.match[e] + 1
+                            continue
+                        if t.kind == 'punct' and t.text in ',;)]}':
+                            break
+                        e += 1
+                    e -= 1
+                out.append((first, params, b, e))
+                i = b
+                continue
+        i += 1
+    return out
